@@ -389,7 +389,9 @@ void qsbr::unregister_thread(std::uint64_t quiescent_states_since_epoch_change,
         quiescent_states_since_epoch_change = 1;
       }
       thread_epoch = new_epoch;
+      UNODB_DETAIL_VERIF_SCHED(qsbr_load, &state);
       old_state = state.load(std::memory_order_acquire);
+      UNODB_DETAIL_VERIF_OBS(qsbr_load, &state, old_state);
       continue;
     }
 
